@@ -65,6 +65,17 @@ def directional(case):
             g = np.sum(nd.Gradient(f)(x0).ravel() * v.ravel()) / np.linalg.norm(v.ravel())
             if not (abs(got - want) <= 1e-7 * (1 + abs(want)) and abs(got - g) <= 1e-7 * (1 + abs(want))):
                 bad.append(dict(shape=shape, got=float(got), expected=float(want), via_gradient=float(g)))
+        # a direction of the same size but another shape (e.g. the flat gradient of a matrix argument)
+        for shape, vshape in [((2, 3), (6,)), ((3, 1), (3,)), ((4,), (2, 2))]:
+            A = rng.normal(size=shape); x0 = rng.normal(size=shape); v = rng.normal(size=vshape) * 2.5
+            f = lambda z: np.sum(A.ravel() * np.ravel(z)) + 0.5 * np.sum(np.ravel(z) ** 2)
+            want = np.sum((A + x0).ravel() * v.ravel()) / np.linalg.norm(v.ravel())
+            try:
+                got = float(nd.directionaldiff(f, x0, v))
+            except Exception as e:
+                bad.append(dict(shape=shape, direction_shape=vshape, raised=repr(e)[:100])); continue
+            if not abs(got - want) <= 1e-7 * (1 + abs(want)):
+                bad.append(dict(shape=shape, direction_shape=vshape, got=got, expected=float(want)))
     return dict(reproduced=bool(bad), failing=bad[:4])
 
 
@@ -93,3 +104,11 @@ def views(case):
     from ndvc.concrete import jacobian_view_cases
     cnt, bad = jacobian_view_cases(nd)
     return dict(reproduced=bool(bad), failing=bad[:3], cases=cnt, statement='Jacobian of affine functions that return views of their argument')
+
+
+@reg('C03.shapes')
+def shapes(case):
+    import numdifftools as nd
+    from ndvc.concrete import jacobian_shape_cases
+    cnt, bad = jacobian_shape_cases(nd)
+    return dict(reproduced=bool(bad), failing=bad[:3], cases=cnt, statement='Jacobian of affine maps: shape (m, n) / (m, n, k), exact to rounding, over the corners of the range')
